@@ -14,6 +14,7 @@ import (
 	"github.com/lugu/qiloop/bus/directory"
 	"github.com/lugu/qiloop/bus/services"
 	"github.com/lugu/qiloop/bus/util"
+	"github.com/lugu/qiloop/type/object"
 	probe "github.com/lugu/qiloop/zzprobe"
 
 	"qsimharness/core"
@@ -101,6 +102,9 @@ func c15op(r *rand.Rand, actor int, local bool) core.Op {
 		}
 		if r.IntN(3) == 0 {
 			return core.Op{Kind: "local-lookup", Actor: actor, S: c15names[r.IntN(len(c15names))]}
+		}
+		if r.IntN(4) == 0 {
+			return core.Op{Kind: "local-object", Actor: actor, X: int64(1 + r.IntN(5))}
 		}
 		return core.Op{Kind: "newservice", Actor: actor, S: c15names[r.IntN(len(c15names))]}
 	}
@@ -292,6 +296,13 @@ func (c15) Run(c *core.Case, env *core.Env) {
 						err = nil // found, but not reachable from here: visible all the same
 					}
 					env.Return(h, "", err)
+				case "local-object":
+					// the hosting process asks its own session for an object
+					// by identifier (the answer is not judged: the path is
+					// there for what it reads while others write)
+					zzsim.SetNode("server")
+					srv.Session().Object(object.ObjectReference{ServiceID: uint32(op.X), ObjectID: 1})
+					env.Probe("local-object-requests")
 				case "terminate":
 					if len(local) == 0 {
 						continue
